@@ -47,6 +47,11 @@ template <int S> struct Runner {
       expect_bits("shift-energy", p, {s2.getEnergy()}, {E});
       expect_bits("shift-energy-grad", p, flat(s2.getEnergyGrad(), N), flat(EG, N));
       expect_bits("shift-propagate", p, flat(s2.propagateGrad(gdC, gdT), N), flat(PG, N));
+      // the same shift applied by update() on an existing object (same N, nothing resized) gives the same trajectory
+      { Sp s3 = sp; (void)s3.getTrajectory().evaluate(s3.getStartTime(), 0); s3.update(q.T, q.P, q.t0, q.bc); ++c.st.comparisons;
+        if (!mat_bits_equal(s3.getTrajectory().getCoefficients(), s2.getTrajectory().getCoefficients()) || s3.getTrajectory().getBreakpoints() != s2.getTrajectory().getBreakpoints() || s3.getCumulativeTimes() != s2.getCumulativeTimes() || s3.getStartTime() != s2.getStartTime() || s3.getEndTime() != s2.getEndTime())
+          fail("shift-by-update", p, fmt("update() of an existing spline to start time %.17g differs from a fresh spline at that start time", q.t0));
+        for (int i = 0; i <= N; ++i) { auto a = s3.getTrajectory().evaluate(s2.getCumulativeTimes()[i], 1), b = s2.getTrajectory().evaluate(s2.getCumulativeTimes()[i], 1); if (!bits_equal(a.data(), b.data(), D)) { fail("shift-by-update", p, "evaluation differs"); break; } } }
     }
     if (!dyadic_exact) return;
     // ---- translation by a dyadic vector: row c0 translated, everything else unchanged ----
